@@ -49,6 +49,7 @@ def write_replay(prop, tier, violation):
         "case": jsonable(violation["case"]),
         "unit": jsonable(violation.get("unit")),
         "curies_src": os.environ.get("CURIES_SRC", "/repo/src"),
+        "hashseed": os.environ.get("PYTHONHASHSEED", "0"),
     }
     digest = hashlib.sha1(json.dumps(body, sort_keys=True).encode()).hexdigest()[:12]
     path = os.path.join(rdir, f"{prop}-{digest}.json")
@@ -93,6 +94,12 @@ def confirm(mod, violation):
 
 def do_replay(mod, prop, path):
     body = json.load(open(path))
+    want = str(body.get("hashseed", "0"))
+    if want != os.environ.get("PYTHONHASHSEED", "0") and not os.environ.get("VERIF_REPLAY_REEXEC"):
+        import subprocess
+
+        env = dict(os.environ, VERIF_HASHSEED=want, VERIF_REPLAY_REEXEC="1")
+        return subprocess.call([os.path.join(VERIF, "check"), prop, "--replay", path], env=env)
     fails = [] if body["signature"].startswith(("crash/", "hang/")) else mod.replay(body["case"])
     if not fails and body.get("unit") is not None:
         from .engine import run_one
@@ -108,12 +115,40 @@ def do_replay(mod, prop, path):
     return 0
 
 
+def hashseed_children(prop, tier, seeds, digest):
+    """Treat the string hash seed as an environment answer to be enumerated: re-run the whole sweep in child
+    interpreters under other PYTHONHASHSEED values; each must hold and must explore the same space with the same results."""
+    import subprocess
+
+    report, status = {}, 0
+    for k in seeds:
+        env = dict(os.environ, VERIF_HASHSEED=str(k))
+        p = subprocess.run([os.path.join(VERIF, "check"), prop, "--tier", tier, "--digest-only"], env=env, capture_output=True, text=True)
+        d = next((l.split()[1] for l in p.stdout.splitlines() if l.startswith("DIGEST ")), None)
+        report[str(k)] = {"exit": p.returncode, "digest": d}
+        if p.returncode == 1:
+            for l in p.stdout.splitlines():
+                if l.startswith(("violation:", "VIOLATION ")):
+                    print(l + (f"  (under PYTHONHASHSEED={k})" if l.startswith("violation:") else ""))
+            status = 1
+        elif p.returncode != 0:
+            print(f"harness error: child run under PYTHONHASHSEED={k} exited {p.returncode}: {p.stdout[-300:]}{p.stderr[-300:]}")
+            status = max(status, 2)
+        elif d != digest:
+            path = write_replay(prop, tier, {"signature": "nondeterminism/results-depend-on-hash-seed", "message": f"result digest {d} under PYTHONHASHSEED={k} differs from {digest} under the default seed", "case": {"hashseed": k}})
+            print(f"violation: nondeterminism/results-depend-on-hash-seed: digest under PYTHONHASHSEED={k} differs")
+            print(f"VIOLATION property={prop} replay={path}")
+            status = 1
+    return report, status
+
+
 def main(argv=None):
     ap = argparse.ArgumentParser()
     ap.add_argument("prop")
     ap.add_argument("--tier", default=os.environ.get("VERIF_TIER", "quick"), choices=["quick", "thorough"])
     ap.add_argument("--replay")
     ap.add_argument("--procs", type=int, default=0)
+    ap.add_argument("--digest-only", action="store_true", help="child mode: no evidence, print DIGEST line")
     args = ap.parse_args(argv)
     prop = args.prop.upper()
     seed = int(os.environ.get("VERIF_SEED", "0") or 0)
@@ -174,6 +209,15 @@ def main(argv=None):
         print(f"violation: {v['signature']}: {v['message']}")
         print(f"VIOLATION property={prop} replay={path}")
         status = 1
+    digest = hashlib.sha1((repr(sorted(merged.outcomes)) + hex(getattr(merged, "dig", 0))).encode()).hexdigest()
+    hs_report = None
+    if getattr(mod, "HASHSEEDS", None) and args.tier in getattr(mod, "HASHSEED_TIERS", ("thorough",)) and not args.digest_only and status == 0 and not irreproducible:
+        hs_report, hs_status = hashseed_children(prop, args.tier, mod.HASHSEEDS, digest)
+        status = max(status, hs_status)
+        merged.counters["hash_seeds_explored"] = 1 + sum(1 for r in hs_report.values() if r["exit"] == 0)
+    if args.digest_only:
+        print(f"DIGEST {digest}")
+        return 2 if irreproducible and status == 0 else status
     wall = round(time.time() - t0, 3)
     write_evidence(mod, prop, args.tier, seed, merged, wall, len(new), [v["signature"] for v in known], units)
     c = merged.counters
